@@ -33,7 +33,10 @@ func init() {
 		},
 		Assumptions: []string{
 			"control flow of generated code is straight-line (no JUMPI): aborts come from gas placement and from the generated endings, not from data-dependent branches",
-			"observations cover the addresses mutated in a discovery pass of the same program; a pass that mutates any other address is abandoned and counted (pass.universe-miss)",
+			"observations cover the fixed accounts plus every address a StateDB mutator was called with in a discovery pass of the same program; a pass that mutates any other address silences the oracle for the rest of that pass and is counted (pass.universe-miss)",
+			"exemptions, all from the EVM specification: gas; the creator's nonce increment of a failed CREATE/CREATE2; for a static frame that SUCCEEDS, an account that did not exist before and is an empty account object afterwards counts as unchanged (EIP-161: both states are 'dead', indistinguishable to the EVM, and any frame may touch an account) — failed frames are compared strictly, existence included",
+			"'burnt' = the balance an account holds at the moment it executes SELFDESTRUCT naming itself (credited to itself, then zeroed by the op) plus whatever balance a self-destructed account holds when Finalise removes it (value it received after its SELFDESTRUCT in the same transaction)",
+			"fault counters count every checked pass: a natural failure (e.g. a REVERT ending) fires once in the reference pass and again in every fault pass that reaches it",
 		},
 		QuickBudget: 40 * time.Second, ThoroughBudget: 12 * time.Minute,
 		MinRuns:    30,
